@@ -107,7 +107,8 @@ def steer_of(c):
 def steered(c):
     st = steer_of(c)
     return bool(st.get("ch1_groups") is not None or st.get("ch1_alpn") is not None or st.get("ch1_strip_ems")
-                or st.get("ch1_strip_sni") or st.get("ch1_strip_vers") or st.get("sh_alpn") or st.get("sh_suite"))
+                or st.get("ch1_strip_sni") or st.get("ch1_strip_vers") or st.get("sh_alpn") or st.get("sh_suite")
+                or st.get("sh_sessionid") or st.get("refuse"))
 
 
 def steer_modelled(c):
@@ -116,6 +117,9 @@ def steer_modelled(c):
     st = steer_of(c)
     if st.get("ch1_strip_vers") or allowed_versions(c["c"]) != [2] or allowed_versions(c["s"]) != [2]:
         return False
+    if st.get("refuse"):
+        # a verification callback of the application refuses the peer: certificate policy (C03), judged by the monitors
+        return False
     ch1 = st.get("ch1_groups") is not None or st.get("ch1_alpn") is not None or st.get("ch1_strip_ems") or st.get("ch1_strip_sni")
     return not (ch1 and c["s"]["skip_hv"])
 
@@ -123,8 +127,9 @@ def steer_modelled(c):
 def steer_term(st):
     def o(l):
         return "None" if l is None else "(Some %s)" % cNlist(l)
-    return "(mkSteer %s %s %s %s %d %d)" % (o(st.get("ch1_groups")), o(st.get("ch1_alpn")), cbool(st.get("ch1_strip_ems", False)),
-                                          cbool(st.get("ch1_strip_sni", False)), st.get("sh_alpn", 0), st.get("sh_suite", 0))
+    return "(mkSteer %s %s %s %s %d %d %s)" % (o(st.get("ch1_groups")), o(st.get("ch1_alpn")), cbool(st.get("ch1_strip_ems", False)),
+                                             cbool(st.get("ch1_strip_sni", False)), st.get("sh_alpn", 0), st.get("sh_suite", 0),
+                                             cbool(st.get("sh_sessionid", False)))
 
 
 def steer_case_term(c):
@@ -406,6 +411,11 @@ def defect_pattern(c):
         # ServerHello followed by DTLS 1.3 ciphertext records is now dropped by the DTLS 1.2 unpacker instead of
         # failing the client, so both sides wait
         return "dual-stack-client-cannot-read-serverhello-with-protected-flight"
+    if cl["class"] == "err" and cl.get("err_alert", -1) > 0 and sv["class"] == "pending" and cc["cid"] >= 0 and sc["cid"] > 0 \
+            and 3 in (c["sh"].get("versions") or []):
+        # DTLS 1.3, the server negotiated a non-empty connection ID, the client raised a fatal alert on the server's
+        # protected flight: abortFlight3 cleared the connection IDs before the alert was sealed
+        return "dtls13-client-alert-sealed-without-negotiated-connection-id"
     if any(x["epoch"] >= 2 for x in (c["alerts"] or [])) and "pending" in (cl["class"], sv["class"]):
         return "dtls13-unprotected-alert-under-handshake-epoch-ignored-by-peer"
     return "other"
@@ -424,6 +434,12 @@ def monitor_agreement(c):
             out.append((name, "%s: client %r, server %r" % (name, a, b)))
     ne("version", cl["version"], sv["version"])
     ne("cipher-suite", cl["suite"], sv["suite"])
+    if cl["version"] == 2 and not steer_of(c).get("sh_sessionid"):
+        # (under a session-id hook the hook monitor reports it, with the follow-up connection)
+        # (a server that saw a client certificate deliberately forgets the id - flight4Parse, CVE-2016-5419 - so
+        # only two different NAMES for the session are a disagreement)
+        if cl.get("sessid") and sv.get("sessid"):
+            ne("session-id", cl["sessid"], sv["sessid"])
     if custom_suite(c) and (cl["exp_err"] or sv["exp_err"]):
         out.append(("exporter-unavailable-on-custom-cipher-suite",
                     "the handshake completed on the user-supplied cipher suite %#06x and application data flows, but "
@@ -522,9 +538,10 @@ def json_dumps(x):
 
 
 def monitor_hook(c):
-    """ServerHello message hook: both sides report what the FINAL ServerHello says (C01 agreement on ALPN and suite)"""
+    """ServerHello message hook: both sides report what the FINAL ServerHello says (C01 agreement on ALPN, suite and
+    the session's name - the next connection over the same stores must find the session again)"""
     st = steer_of(c)
-    if not (st.get("sh_alpn") or st.get("sh_suite")) or not both_ok(c):
+    if not (st.get("sh_alpn") or st.get("sh_suite") or st.get("sh_sessionid")) or not both_ok(c):
         return []
     cl, sv = c["client"], c["server"]
     bad = []
@@ -532,11 +549,20 @@ def monitor_hook(c):
         bad.append("ALPN client %r / server %r" % (cl["alpn"], sv["alpn"]))
     if cl["suite"] != sv["suite"]:
         bad.append("cipher suite client %#06x / server %#06x" % (cl["suite"], sv["suite"]))
+    if st.get("sh_sessionid"):
+        if cl.get("sessid") != sv.get("sessid"):
+            bad.append("session id client %s / server %s" % (cl.get("sessid") or "''", sv.get("sessid") or "''"))
+        nx = c.get("next") or {}
+        if nx.get("run") and not nx.get("resumed"):
+            bad.append("the next connection over the same two session stores (no hook) %s instead of resuming "
+                       "(ClientHello offers a %d-byte session id, ServerHello echoes %d bytes, ServerHelloDone seen: %s)" % (
+                           "makes a full handshake" if nx.get("ok") else "does not establish",
+                           nx.get("ch_sidlen", 0), nx.get("sh_sidlen", 0), nx.get("shd_seen")))
     if not bad:
         return []
     return [("server-commits-pre-hook-server-hello",
              "ServerHello message hook %s: both sides report success with different views: %s" % (
-                 json_dumps({k: v for k, v in st.items() if k in ("sh_alpn", "sh_suite") and v}), "; ".join(bad)))]
+                 json_dumps({k: v for k, v in st.items() if k in ("sh_alpn", "sh_suite", "sh_sessionid") and v}), "; ".join(bad)))]
 
 
 def custom_suite(c):
